@@ -45,10 +45,7 @@ __CPROVER_assigns(__verif_g)
 __CPROVER_ensures(fn_idx == __verif_gf ==> __verif_g.fnv == 1)
 __CPROVER_ensures(fn_idx != __verif_gf ==> __verif_g.fnv == __CPROVER_old(__verif_g.fnv))
 __CPROVER_ensures(__verif_g.verified_module == __CPROVER_old(__verif_g.verified_module))
-#ifndef VERIF_VIEW_CALLER   /* binds the ghost copies for the postcondition below; of no concern to callers */
-__CPROVER_requires(__verif_c == FCODE(mod, fn_idx) && __verif_end == FEND(mod, fn_idx))
-#endif
-__CPROVER_ensures((__CPROVER_return_value.ok && __verif_g.hit) ==> INSTR_OKX(__verif_c, __verif_end, __verif_gpos, mod, fn_idx))
+__CPROVER_ensures((__CPROVER_return_value.ok && __verif_g.hit) ==> INSTR_OK(mod, fn_idx, __verif_gpos))
 /* the walk covers the function exactly: it ends at code_length, never beyond */
 __CPROVER_ensures(__CPROVER_return_value.ok ==> __verif_g.walk_end == mod->functions[fn_idx].code_length);
 
